@@ -6,6 +6,7 @@ pub mod c04;
 pub mod c05;
 pub mod c06;
 pub mod c06_e2e;
+pub mod c07;
 pub mod c08;
 pub mod c09;
 pub mod c09_e2e;
@@ -35,6 +36,7 @@ pub fn registry() -> Vec<(&'static str, CheckFn)> {
         ("C04", c04::run as CheckFn),
         ("C05", c05::run as CheckFn),
         ("C06", c06::run as CheckFn),
+        ("C07", c07::run as CheckFn),
         ("C08", c08::run as CheckFn),
         ("C09", c09::run as CheckFn),
         ("C11", c11::run as CheckFn),
